@@ -19,6 +19,7 @@ macro_rules! dispatch {
             "C06" => $f(&props::c06::C06, $($arg),*),
             "C08" => $f(&props::c08::C08, $($arg),*),
             "C09" => $f(&props::c09::C09, $($arg),*),
+            "C10" => $f(&props::c10::C10, $($arg),*),
             _ => { eprintln!("unknown property {}", $id); 2 }
         }
     };
